@@ -18,9 +18,9 @@ func init() {
 	register(&Prop{
 		ID:       "C15",
 		Category: "fault_enumeration",
-		Rule: "streams: the short flate corpus, long encoder-made flate streams, the gzip/zlib container corpus (single and two members, dictionaries); for EVERY k in 0..|s| (short streams; a ladder for long ones) the source delivers k bytes and then fails with a fresh error value, alone or together with the last bytes; " +
+		Rule: "streams: the short flate corpus, long encoder-made flate streams, the gzip/zlib container corpus (single and two members, dictionaries); for EVERY k in 0..|s| (short streams; a ladder for long ones) the source delivers k bytes and then fails with a fresh error value - or (short streams, whole delivery) an error that wraps io.EOF, bufio.ErrBufferFull, io.ErrNoProgress, io.ErrUnexpectedEOF - alone or together with the last bytes; " +
 			"source in {plain, bufio 16, bufio 4096} x delivery {one call, 3 bytes per call} x Read policy {1 MiB, 7, 1}; " +
-			"oracle: the Reader (or its constructor) eventually returns exactly that error value, every byte handed out before is a prefix of the true plaintext, three further Reads return the same error and no data; at k = |s| a clean io.EOF is also admissible when the stream is complete; " +
+			"oracle: the Reader (or its constructor) eventually returns exactly that error value, every byte handed out before is a prefix of the true plaintext, three further Reads return the same error and no data, and the Reader does return (a source asked 1000 more times after it failed is a hang); at k = |s| a clean io.EOF is also admissible when the stream is complete; " +
 			"non-trivial = 0 < k < |s|; distinct = distinct (stream, k, with-data, source, delivery, policy)",
 		Assumptions: []string{"the source keeps returning the same error once it has failed"},
 		Quick:       TierSpec{MaxDev: -1, Shards: 4, ShardDepth: 3, BudgetS: 150},
@@ -91,7 +91,22 @@ func c15Harness(cfg *Cfg) func(x *mc.Exec) {
 		if k > 0 && k < n {
 			x.NonTrivial()
 		}
+		// the error value: a fresh one, or (short streams, whole delivery) one of the values a Reader might confuse with
+		// its own conditions: an error that wraps io.EOF, bufio's and io's sentinels
 		E := env.NewErr(fmt.Sprintf("k=%d", k))
+		evName := "fresh"
+		if !st.long && chunk == 0 && pol.Name == env.PolicyAll.Name {
+			switch x.Choose(5, "error-value") {
+			case 1:
+				E, evName = fmt.Errorf("fetch body: %w", io.EOF), "wraps-io.EOF"
+			case 2:
+				E, evName = bufio.ErrBufferFull, "bufio.ErrBufferFull"
+			case 3:
+				E, evName = io.ErrNoProgress, "io.ErrNoProgress"
+			case 4:
+				E, evName = io.ErrUnexpectedEOF, "io.ErrUnexpectedEOF"
+			}
+		}
 		src := env.NewSource(st.bytes)
 		src.Limit = k
 		src.Term = env.TermErr
@@ -106,7 +121,7 @@ func c15Harness(cfg *Cfg) func(x *mc.Exec) {
 		if bsz > 0 {
 			source = bufio.NewReaderSize(src, bsz)
 		}
-		desc := fmt.Sprintf("%s (%s, %d bytes): source fails after %d bytes (with data=%v) bufio=%d chunk=%d policy=%s", st.name, st.kind, n, k, withData, bsz, chunk, pol.Name)
+		desc := fmt.Sprintf("%s (%s, %d bytes): source fails after %d bytes with %s (with data=%v) bufio=%d chunk=%d policy=%s", st.name, st.kind, n, k, evName, withData, bsz, chunk, pol.Name)
 		site := st.kind.Kind
 		var r io.Reader
 		var oerr error
@@ -124,6 +139,12 @@ func c15Harness(cfg *Cfg) func(x *mc.Exec) {
 		}
 		o := drainReader(r, pol)
 		x.Note(o.FP)
+		if o.Panic != nil {
+			if sp, ok := o.Panic.Val.(env.Spin); ok {
+				x.Fail(fmt.Sprintf("C15 asks-failed-source-forever %s error=%s", site, evName), "%s: the Reader never returned; it asked the failed source %d more times", desc, sp.Calls)
+				return
+			}
+		}
 		if cls, msg := o.basicFaults(); cls != "" {
 			x.Fail("C15 "+cls+" "+site, "%s: %s", desc, msg)
 			return
@@ -136,7 +157,7 @@ func c15Harness(cfg *Cfg) func(x *mc.Exec) {
 			complete := k == n && o.Err == io.EOF && len(o.Out) == len(st.payload)
 			// gzip in multistream mode must look for a next member and therefore meets the error even at k == n
 			if !complete {
-				x.Fail(fmt.Sprintf("C15 source-error-masked %s got=%s at-end=%v", site, errClass(o.Err), k == n), "%s: Reader ended with %v after %d of %d bytes instead of the source's error", desc, o.Err, len(o.Out), len(st.payload))
+				x.Fail(fmt.Sprintf("C15 source-error-masked %s got=%s at-end=%v error=%s", site, errClass(o.Err), k == n, evName), "%s: Reader ended with %v after %d of %d bytes instead of the source's error", desc, o.Err, len(o.Out), len(st.payload))
 				return
 			}
 		}
